@@ -144,6 +144,8 @@ FAMILY = [
     Struct("SAbiRem", [F("a", "u32"), F("b", "AbiRemoved<u32>", vfrom=0, vto=0), F("c", "u32"), F("d", "u32", vfrom=2)],
            repr="C", version=2, tags=["older"]),
     Struct("SUpperBound", [F("a", "u32"), F("x", "u32", vfrom=0, vto=1)], repr="C", version=2, tags=["older"]),
+    # a live field with a closed version range strictly inside the history (not packed: plain repr)
+    Struct("SMidRange", [F("a", "u32"), F("b", "u16", vfrom=1, vto=2), F("c", "u8")], version=3, tags=["older"]),
     # a variant added at version 2 declared BEFORE an older variant
     Enum("EVerMid", [V("A"), V("B", [F("0", "u32")], tuple_=True, vfrom=2), V("C", [F("0", "u16")], tuple_=True)], version=2, tags=["novec"]),
 ]
@@ -496,14 +498,18 @@ def main():
             for at in (0, 9, 16, 17):
                 reg.append('    h(failw%d_%s, 96, crate::containers::fail_write::<%s, _, %d>, "bounded", "C08", "Serializer::save_impl; Serializer::write_*; From<io::Error> for SavefileError; %s Serialize", "hard write failure at byte offset %d (one offset per instance; all offsets are covered by the Verus Err-clauses)");' % (at, n, T, at, der, at))
         reg.append('    h(schema_%s, 64, crate::schemaread::schema_faithful::<%s, _>, "complete", "C12", "%s WithSchema::schema; savefile::get_schema; Serialize", "");' % (n, T, der))
+        reg.append('    h(intro_%s, 64, crate::family::intro_index::<%s, _>, "complete", "C17", "%s Introspect::introspect_len; Introspect::introspect_child", "");' % (n, T, der))
         m = max_size(n, types)
         if m is not None:
             reg.append('    h(mal_%s, 64, crate::containers::malformed_fixed::<%s, _, %d>, "complete", "C06", "%s Deserialize; Deserializer::read_*", "");' % (n, T, m, der))
     nat = ["// GENERATED by /verif/gen/gen_family.py -- native (small-scope enumeration) registry for the family",
            "pub fn native_family_registry() -> Vec<(&'static str, fn(&mut crate::src::EnumSrc))> {", "    vec!["]
-    for n in CONTAINER_TYPES + ["EVerMid", "SWithOnly", "EDir", "EOnly", "SVerOrder", "SAbiRem"]:
+    for n in CONTAINER_TYPES + ["EVerMid", "SWithOnly", "EDir", "EOnly", "SVerOrder", "SAbiRem", "SMidRange"]:
         nat.append('        // n(nschema_%s, "C12", "derive WithSchema for %s; savefile::get_schema; derive Serialize", "small-scope values of %s at its current version");' % (n, n, n))
         nat.append('        ("nschema_%s", (|s: &mut crate::src::EnumSrc| crate::schemaread::schema_faithful::<crate::family_gen::%s, _>(s)) as fn(&mut crate::src::EnumSrc)),' % (n, n))
+    for n in ["SVerOrder", "SAbiRem", "SMidRange"]:
+        nat.append('        // n(nschema_versions_%s, "C12", "derive WithSchema for %s at every version <= current; savefile::get_schema; derive Serialize writing older versions", "small-scope values of %s, every version 0..=current");' % (n, n, n))
+        nat.append('        ("nschema_versions_%s", (|s: &mut crate::src::EnumSrc| crate::schemaread::schema_faithful_versions::<crate::family_gen::%s, _>(s)) as fn(&mut crate::src::EnumSrc)),' % (n, n))
     for n in CONTAINER_TYPES:
         nat.append('        // n(nfault_%s, "C08", "Serializer::save_impl; Deserializer::load_impl; savefile::save; savefile::load; derive Serialize/Deserialize for %s", "small-scope values of %s; every write-failure offset, flush failure, short writes 1..3 with Interrupted patterns, every read-failure offset, chunked reads 1..4; with and without schema");' % (n, n, n))
         nat.append('        ("nfault_%s", (|s: &mut crate::src::EnumSrc| crate::native_misc::fault_family::<crate::family_gen::%s, _>(s)) as fn(&mut crate::src::EnumSrc)),' % (n, n))
